@@ -14,6 +14,9 @@ from __future__ import annotations
 
 import types
 
+import os
+import traceback
+
 import numpy as np
 import sympy as sp
 
@@ -151,6 +154,105 @@ def native_history(ck):
     return {"violated": False, "evaluations": 3}
 
 
+def stage_equivariance(ck):
+    """every real per-event stage on small and awkward batches, for fixed per-event random numbers: permuting the events permutes the rows,
+    evaluating the batch in two pieces or one event at a time gives the same rows, the arguments are left untouched"""
+    from contracts import C05, C08
+    from nuspacesim.config import NssConfig, Simulation
+    from nuspacesim.simulation.eas_optical.eas import EAS
+    from nuspacesim.simulation.eas_radio.radio import EASRadio
+    from nuspacesim.simulation.eas_radio.radio_antenna import calculate_snr
+    from nuspacesim.simulation.spectra.spectra import Spectra
+
+    rng = np.random.default_rng(ck.seed + 17)
+    fails, nev = [], 0
+    taus = C05.fresh_taus("3")
+    cfg = NssConfig()
+    eas = EAS(cfg)
+    eas.CphotAng = None
+    rcfg = NssConfig()
+    rcfg.simulation.ionosphere = None
+    radio = EASRadio(rcfg)
+    pcfg = NssConfig()
+    pcfg.simulation.spectrum = Simulation.PowerSpectrum(index=2.2, lower_bound=7.0, upper_bound=11.0)
+    spectra = Spectra(pcfg)
+
+    def cols(n):
+        beta = np.radians(rng.uniform(0.5, 40.0, n))
+        if n > 2:
+            beta[1], beta[-1] = 0.0008, np.radians(43.0)  # below the tau tables' smallest angle, above the largest
+        alt = rng.uniform(-1.0, 24.0, n)
+        if n > 1:
+            alt[0] = 5.0
+        return {"beta": beta, "logE": rng.uniform(7.0, 10.5, n), "u": rng.uniform(0.02, 0.98, n), "u2": rng.uniform(0.02, 0.98, n), "alt": alt, "len": np.abs(alt) / np.sin(np.maximum(beta, 0.02)) + 0.3,
+                "theta": rng.uniform(0.005, 0.05, n), "path": rng.uniform(600.0, 2500.0, n), "E": 10 ** rng.uniform(-2, 2, n), "lat": rng.uniform(-1, 1, n), "lon": rng.uniform(-3, 3, n),
+                "tb": rng.uniform(0.9, 0.999999, n), "tl": 10 ** rng.uniform(3, 8, n), "r1": rng.uniform(-0.5, 0.5, n), "r2": rng.uniform(-6.0, 0.0, n)}
+
+    def st_pexit(c):
+        return (taus.tau_exit_prob(c["beta"].copy(), c["logE"].copy()),)
+
+    def st_etau(c):
+        return (taus.tau_energy(c["beta"].copy(), c["logE"].copy(), c["u"].copy()),)
+
+    def st_altdec(c):
+        return tuple(eas.altDec(c["beta"].copy(), c["tb"].copy(), c["tl"].copy(), c["u"].copy()))
+
+    def st_eas(c):
+        v = {k: c[k] for k in ("beta", "alt", "E", "lat", "lon")}
+        v["dph"], v["th"] = C08.kernel_fn(v["beta"], v["alt"], v["E"], v["lat"], v["lon"])
+        eas.CphotAng = C08.KernelStub(v)
+        return tuple(eas(c["beta"].copy(), c["alt"].copy(), c["E"].copy(), c["lat"].copy(), c["lon"].copy()))
+
+    def st_radio(c):
+        inr = (c["alt"] >= 0) & (c["alt"] <= 10)
+        with harness.patched_rng([c["r1"][inr].copy(), c["r2"][inr].copy()]), np.errstate(all="ignore"):
+            ef = radio(c["beta"].copy(), c["alt"].copy(), c["len"].copy(), c["theta"].copy(), c["path"].copy(), c["E"].copy())
+        return (np.asarray(ef), np.asarray(calculate_snr(np.asarray(ef), (30.0, 300.0), 525.0, 10, 1.8)))
+
+    def st_spectrum(c):
+        with harness.patched_rng([c["u"].copy()]):
+            return (np.asarray(spectra(len(c["u"]))[0]),)
+
+    stages = (("Taus.tau_exit_prob", st_pexit), ("Taus.tau_energy", st_etau), ("EAS.altDec", st_altdec), ("EAS.__call__", st_eas), ("EASRadio.__call__ + calculate_snr", st_radio), ("Spectra.__call__", st_spectrum))
+
+    def take(c, idx):
+        return {k: v[idx] for k, v in c.items()}
+
+    def same(a, b):
+        return all(np.shape(x) == np.shape(y) and np.allclose(np.asarray(x, float), np.asarray(y, float), rtol=1e-12, atol=0, equal_nan=True) for x, y in zip(a, b))
+
+    for name, f in stages:
+        for n in (1, 2, 3, 4, 7, 33):
+            c = cols(n)
+            c0 = {k: v.copy() for k, v in c.items()}
+            try:
+                with np.errstate(all="ignore"):
+                    whole = f(c)
+                    nev += n
+                    checks = []
+                    perm = rng.permutation(n)
+                    checks.append(("permuting the events permutes the rows", tuple(np.asarray(x)[perm] for x in whole), f(take(c, perm)), {"permutation": perm.tolist()}))
+                    if n >= 2:
+                        k = n // 2
+                        a_, b_ = f(take(c, np.arange(k))), f(take(c, np.arange(k, n)))
+                        checks.append(("the batch in two pieces gives the same rows", whole, tuple(np.concatenate([np.asarray(x), np.asarray(y)]) for x, y in zip(a_, b_)), {"split at": k}))
+                    singles = [f(take(c, np.array([j]))) for j in range(min(n, 5))]
+                    checks.append(("an event evaluated alone gives its row of the batch", tuple(np.asarray(x)[: len(singles)] for x in whole), tuple(np.concatenate([np.asarray(s_[i]) for s_ in singles]) for i in range(len(whole))), {"events": len(singles)}))
+                for clause, want, got, extra in checks:
+                    if not same(want, got):
+                        fails.append({"obligation": "bounded.stage_equivariance", "clause": "%s: %s" % (name, clause), "input": {"stage": name, "events": n, "seed": ck.seed + 17, **extra},
+                                      "observed": {"batch rows": np.asarray(want[0], float).ravel()[:4].tolist(), "other evaluation": np.asarray(got[0], float).ravel()[:4].tolist()}})
+                        break
+                if any(not np.array_equal(c[k], c0[k], equal_nan=True) for k in c):
+                    fails.append({"obligation": "bounded.stage_equivariance", "clause": "%s leaves its argument arrays untouched" % name, "input": {"stage": name, "events": n}, "observed": [k for k in c if not np.array_equal(c[k], c0[k], equal_nan=True)]})
+            except Exception as ex:
+                tb = traceback.extract_tb(ex.__traceback__)
+                inner = tb[-1] if tb else None
+                fails.append({"obligation": "bounded.stage_equivariance", "clause": "%s evaluates on a batch of %d events" % (name, n), "input": {"stage": name, "events": n, "seed": ck.seed + 17},
+                              "observed": "raised %r at %s:%s" % (ex, os.path.basename(inner.filename) if inner else "?", inner.lineno if inner else "?")})
+    return {"evaluations": nev, "failures": fails}
+
+
 def run(ck):
     ck.assume("internal random draws of a stage are ghost per-event inputs aligned with the (masked) batch: `for fixed random numbers`",
               "elementwise (generic-element typing) => permutation-equivariant and split/concatenation-invariant: lemma of the array abstraction (DESIGN 2.3), not re-proved per stage",
@@ -174,6 +276,8 @@ def run(ck):
         C02.stage(ck)
     except ImportError:
         ck.notes.append("diffuse geometry stage (RegionGeom.throw) not yet under contract")
+    ck.bounded_run("real stages on small and awkward batches: permutation, split, single events, frame", lambda: stage_equivariance(ck),
+                   design="6 stages (exit probability, tau energy with explicit numbers, decay altitude, optical stage with a stand-in kernel, radio field + SNR, power-law spectrum) x batch sizes 1, 2, 3, 4, 7, 33 with out-of-range events mixed in; fixed per-event random numbers")
     ck.bounded_run("target geometry: second call vs fresh object, caller array", lambda: _wrap(native_history(ck)), design="500 sorted random instants a, b on one object vs fresh object (real astropy)")
 
 
